@@ -1,7 +1,7 @@
 (** C13 — the in-process version cache is coherent with a from-scratch computation.
     Statements only (model Version/VCache.v, proofs Version/VCacheProofs.v). *)
 From Coq Require Import List Arith Bool.
-From Memento Require Import Version.Rules Version.RulesProofs Version.Stale Version.StaleProofs Version.VCache Version.VCacheProofs Gen.SourceFacts Gen.FactsOK.
+From Memento Require Import Version.Rules Version.RulesProofs Version.Stale Version.StaleProofs Version.VCache Version.VCacheProofs Gen.SourceFacts Gen.FactsC13.
 Import ListNotations.
 
 (** if none of the rules collected in an earlier world observes a change (value of a variable,
